@@ -20,7 +20,7 @@ func init() {
 		for i := 0; i < n; i++ {
 			st.add("lookups", 2)
 			id := im.TokId(i)
-			if id != it.Tok.TypeMap[i] {
+			if jsonSafe(id) != it.Tok.TypeMap[i] {
 				emit(&Out{Item: it.ID, Kind: "inconsistent", What: fmt.Sprintf("TokMap.Id(%d)=%q, reader saw %q", i, id, it.Tok.TypeMap[i])})
 				return
 			}
@@ -73,3 +73,7 @@ func init() {
 		st.sample(map[string]any{"grammar": it.Text, "typeMap": it.Tok.TypeMap})
 	}
 }
+
+// jsonSafe is what a string becomes on its way through the JSON spec the driver receives: every byte that is not part
+// of a valid UTF-8 sequence is U+FFFD (names read from emitted files reach the driver that way).
+func jsonSafe(s string) string { return string([]rune(s)) }
